@@ -41,6 +41,9 @@ def instantiations(tier, seed):
         if sk["t"] == "Not":
             continue
         m = F.rename(sk, F.ALT_NAMES[(k + seed) % len(F.ALT_NAMES)])
+        if k % 4 in (1, 2):
+            # user-chosen ids that merely look like generated ones ("VAR..."), with and without the helper variables reported
+            m = F.rename(m, {c["id"]: "VAR" + str(c["id"]) for c in pl.compounds(m) if c.get("id")})
         for ans in (["vector", "none"] if k % 3 == 0 else ["vector"]):
             out.append({"part": "solve", "model": m, "virtual": bool(k % 2), "answer": ans, "nobj": 1 + (k % 2)})
         if tier == "thorough" or k % 4 == 0:
